@@ -212,7 +212,7 @@ class Check(object):
             "amoco_rev": rev,
             "dirty": dirty,
         }
-        d = os.path.join(VERIF, "replays", self.prop)
+        d = os.path.join(os.environ.get("AMOSIM_REPLAY_DIR") or os.path.join(VERIF, "replays"), self.prop)
         os.makedirs(d, exist_ok=True)
         fn = re.sub(r"[^A-Za-z0-9_.@-]+", "_", sig)[:80]
         path = os.path.join(d, "%s-%s.json" % (fn, res.get("seed", "x")))
@@ -411,7 +411,7 @@ class Check(object):
             "amoco_rev": rev,
             "amoco_dirty": dirty,
         }
-        d = os.path.join(VERIF, "evidence")
+        d = os.environ.get("AMOSIM_EVIDENCE_DIR") or os.path.join(VERIF, "evidence")
         os.makedirs(d, exist_ok=True)
         tmp = os.path.join(d, ".%s.json.tmp" % self.prop)
         with open(tmp, "w") as f:
